@@ -1,0 +1,384 @@
+//! Verification hooks (only compiled with `--cfg mainline_verif`).
+//!
+//! * a virtual clock ([Instant]) replacing `std::time::Instant` and the wall clock,
+//! * an in-memory [UdpSocket] whose `recv_from` is the lock-step synchronisation point
+//!   between an actor thread and an external deterministic scheduler,
+//! * re-exports of crate-private items an external harness needs.
+//!
+//! Nothing in here changes behaviour of the library; it only replaces its environment.
+#![allow(missing_docs, clippy::unwrap_used, clippy::panic)]
+
+use std::cell::Cell;
+use std::collections::HashMap;
+use std::io;
+use std::net::{Ipv4Addr, SocketAddr, SocketAddrV4};
+use std::ops::{Add, Sub};
+use std::sync::atomic::{AtomicBool, AtomicU64, AtomicU8, Ordering};
+use std::sync::{Arc, Mutex};
+use std::thread::Thread;
+use std::time::Duration;
+
+pub use crate::actor::{config::Config, Actor, ResponseSender};
+pub use crate::common::messages::*;
+pub use crate::common::{
+    hash_immutable, validate_immutable, ClosestNodes, Id, MutableItem, Node, RoutingTable,
+    SignedAnnounce,
+};
+pub use crate::core::iterative_query::GetRequestSpecific;
+pub use crate::core::{ConcurrencyError, PutError, PutQueryError, Response};
+
+// ------------------------------------------------------------------ virtual clock
+
+/// The virtual clock starts at one hour so that `Instant - Duration` never underflows.
+const START_NS: u64 = 3_600_000_000_000;
+static NOW_NS: AtomicU64 = AtomicU64::new(START_NS);
+
+#[derive(Clone, Copy, PartialEq, Eq, PartialOrd, Ord, Debug, Hash)]
+pub struct Instant(u64);
+
+impl Instant {
+    pub fn now() -> Self {
+        Instant(NOW_NS.load(Ordering::SeqCst))
+    }
+    pub fn elapsed(&self) -> Duration {
+        Duration::from_nanos(NOW_NS.load(Ordering::SeqCst).saturating_sub(self.0))
+    }
+    pub fn duration_since(&self, earlier: Instant) -> Duration {
+        Duration::from_nanos(self.0.saturating_sub(earlier.0))
+    }
+    pub fn as_nanos(&self) -> u64 {
+        self.0
+    }
+}
+impl Add<Duration> for Instant {
+    type Output = Instant;
+    fn add(self, d: Duration) -> Instant {
+        Instant(self.0 + d.as_nanos() as u64)
+    }
+}
+impl Sub<Duration> for Instant {
+    type Output = Instant;
+    fn sub(self, d: Duration) -> Instant {
+        Instant(self.0 - d.as_nanos() as u64)
+    }
+}
+impl Sub<Instant> for Instant {
+    type Output = Duration;
+    fn sub(self, o: Instant) -> Duration {
+        self.duration_since(o)
+    }
+}
+
+/// Nanoseconds of virtual time since the virtual epoch.
+pub fn now_ns() -> u64 {
+    NOW_NS.load(Ordering::SeqCst)
+}
+/// Advance the virtual clock.
+pub fn advance(d: Duration) {
+    NOW_NS.fetch_add(d.as_nanos() as u64, Ordering::SeqCst);
+}
+/// Reset the virtual clock to its start (between independent runs in one process).
+pub fn reset_clock() {
+    NOW_NS.store(START_NS, Ordering::SeqCst);
+}
+/// Virtual wall clock in microseconds since the unix epoch.
+pub fn unix_micros() -> u64 {
+    1_800_000_000_000_000 + now_ns() / 1000
+}
+
+// ------------------------------------------------------------------ in-memory UDP
+
+#[derive(Debug, Clone)]
+pub struct Datagram {
+    pub from: SocketAddrV4,
+    pub to: SocketAddrV4,
+    pub bytes: Vec<u8>,
+}
+
+#[derive(Debug)]
+pub enum Grant {
+    Datagram(Vec<u8>, SocketAddrV4),
+    Timeout,
+}
+
+const ST_RUNNING: u8 = 0;
+const ST_PARKED: u8 = 1;
+const ST_DEAD: u8 = 2;
+
+#[derive(Debug)]
+struct Endpoint {
+    addr: SocketAddrV4,
+    inline: bool,
+    state: AtomicU8,
+    panicked: AtomicBool,
+    grant: Mutex<Option<Grant>>,
+    thread: Thread,
+}
+
+#[derive(Default)]
+struct Net {
+    eps: HashMap<u64, Arc<Endpoint>>,
+    next_id: u64,
+    next_ip: Option<Ipv4Addr>,
+    next_port: u16,
+    outbox: Vec<Datagram>,
+    last_bound: Option<u64>,
+}
+
+static NET: Mutex<Option<Net>> = Mutex::new(None);
+
+fn with<R>(f: impl FnOnce(&mut Net) -> R) -> R {
+    let mut g = NET.lock().unwrap_or_else(|e| e.into_inner());
+    if g.is_none() {
+        *g = Some(Net {
+            next_port: 20000,
+            ..Default::default()
+        });
+    }
+    f(g.as_mut().unwrap())
+}
+
+fn ep_of(id: u64) -> Arc<Endpoint> {
+    with(|n| n.eps[&id].clone())
+}
+
+thread_local! { static INLINE: Cell<bool> = const { Cell::new(false) }; }
+
+#[derive(Debug)]
+pub struct UdpSocket {
+    id: u64,
+    port: u16,
+    ep: Arc<Endpoint>,
+}
+
+impl UdpSocket {
+    pub fn bind(addr: SocketAddr) -> io::Result<Self> {
+        with(|n| {
+            let ip = n.next_ip.unwrap_or(Ipv4Addr::new(127, 0, 0, 1));
+            let port = if addr.port() == 0 {
+                n.next_port = n.next_port.wrapping_add(1).max(20001);
+                n.next_port
+            } else {
+                addr.port()
+            };
+            let a = SocketAddrV4::new(ip, port);
+            if n.eps
+                .values()
+                .any(|e| e.addr == a && e.state.load(Ordering::SeqCst) != ST_DEAD)
+            {
+                return Err(io::Error::from(io::ErrorKind::AddrInUse));
+            }
+            n.next_ip = None;
+            n.next_id += 1;
+            let id = n.next_id;
+            let ep = Arc::new(Endpoint {
+                addr: a,
+                inline: INLINE.with(|c| c.get()),
+                state: AtomicU8::new(ST_RUNNING),
+                panicked: AtomicBool::new(false),
+                grant: Mutex::new(None),
+                thread: std::thread::current(),
+            });
+            n.eps.insert(id, ep.clone());
+            n.last_bound = Some(id);
+            Ok(UdpSocket { id, port, ep })
+        })
+    }
+    pub fn local_addr(&self) -> io::Result<SocketAddr> {
+        Ok(SocketAddr::from(([0, 0, 0, 0], self.port)))
+    }
+    pub fn set_read_timeout(&self, _d: Option<Duration>) -> io::Result<()> {
+        Ok(())
+    }
+    pub fn send_to(&self, buf: &[u8], to: SocketAddrV4) -> io::Result<usize> {
+        with(|n| {
+            n.outbox.push(Datagram {
+                from: self.ep.addr,
+                to,
+                bytes: buf.to_vec(),
+            })
+        });
+        Ok(buf.len())
+    }
+    pub fn recv_from(&self, buf: &mut [u8]) -> io::Result<(usize, SocketAddr)> {
+        if !self.ep.inline {
+            // Lock-step: report "parked", then wait for the scheduler's grant.
+            self.ep.state.store(ST_PARKED, Ordering::SeqCst);
+            loop {
+                if self.ep.grant.lock().unwrap_or_else(|e| e.into_inner()).is_some() {
+                    break;
+                }
+                std::thread::park();
+            }
+            self.ep.state.store(ST_RUNNING, Ordering::SeqCst);
+        }
+        let grant = self.ep.grant.lock().unwrap_or_else(|e| e.into_inner()).take();
+        match grant {
+            None | Some(Grant::Timeout) => Err(io::Error::from(io::ErrorKind::WouldBlock)),
+            Some(Grant::Datagram(b, from)) => {
+                let n = b.len().min(buf.len());
+                buf[..n].copy_from_slice(&b[..n]);
+                Ok((n, SocketAddr::V4(from)))
+            }
+        }
+    }
+}
+
+impl Drop for UdpSocket {
+    fn drop(&mut self) {
+        self.ep
+            .panicked
+            .store(std::thread::panicking(), Ordering::SeqCst);
+        self.ep.state.store(ST_DEAD, Ordering::SeqCst);
+        let _ = self.id;
+    }
+}
+
+// ------------------------------------------------------------------ scheduler side
+
+/// Address (public IP) the next `bind` will get.
+pub fn sim_next_ip(ip: Ipv4Addr) {
+    with(|n| n.next_ip = Some(ip));
+}
+/// Sockets bound on this thread from now on are inline (never block in `recv_from`).
+pub fn sim_inline(on: bool) {
+    INLINE.with(|c| c.set(on));
+}
+pub fn sim_last_bound() -> (u64, SocketAddrV4) {
+    with(|n| {
+        let id = n.last_bound.unwrap();
+        (id, n.eps[&id].addr)
+    })
+}
+pub fn sim_bound_count() -> u64 {
+    with(|n| n.next_id)
+}
+pub fn sim_take_outbox() -> Vec<Datagram> {
+    with(|n| std::mem::take(&mut n.outbox))
+}
+pub fn sim_is_dead(id: u64) -> bool {
+    ep_of(id).state.load(Ordering::SeqCst) == ST_DEAD
+}
+pub fn sim_panicked(id: u64) -> bool {
+    ep_of(id).panicked.load(Ordering::SeqCst)
+}
+pub fn sim_parked_now(id: u64) -> bool {
+    let ep = ep_of(id);
+    ep.state.load(Ordering::SeqCst) == ST_PARKED
+        && ep.grant.lock().unwrap_or_else(|e| e.into_inner()).is_none()
+}
+/// Store the next input of an inline endpoint.
+pub fn sim_set_input(id: u64, grant: Grant) {
+    *ep_of(id).grant.lock().unwrap_or_else(|e| e.into_inner()) = Some(grant);
+}
+/// Forget every endpoint (between independent runs in one process). All threaded
+/// nodes must have been shut down before.
+pub fn sim_reset() {
+    with(|n| {
+        n.eps.clear();
+        n.outbox.clear();
+        n.next_ip = None;
+        n.next_port = 20000;
+        n.last_bound = None;
+    });
+}
+
+fn wait_parked_or_dead(ep: &Endpoint, watchdog: Duration) -> Option<bool> {
+    let start = std::time::Instant::now();
+    let mut spins = 0u32;
+    loop {
+        match ep.state.load(Ordering::SeqCst) {
+            ST_DEAD => return Some(false),
+            ST_PARKED => {
+                if ep.grant.lock().unwrap_or_else(|e| e.into_inner()).is_none() {
+                    return Some(true);
+                }
+            }
+            _ => {}
+        }
+        spins += 1;
+        if spins < 2000 {
+            std::hint::spin_loop();
+        } else {
+            std::thread::sleep(Duration::from_micros(20));
+            if start.elapsed() > watchdog {
+                return None;
+            }
+        }
+    }
+}
+
+/// Wait until a threaded endpoint is parked in `recv_from` (Some(true)), dead
+/// (Some(false)) or the real-time watchdog expired (None).
+pub fn sim_wait_parked(id: u64, watchdog: Duration) -> Option<bool> {
+    wait_parked_or_dead(&ep_of(id), watchdog)
+}
+
+/// Give a threaded node one grant and wait until it parks again (Some(true)), dies
+/// (Some(false)) or the real-time watchdog expires (None = hang).
+pub fn sim_step(id: u64, grant: Grant, watchdog: Duration) -> Option<bool> {
+    let ep = ep_of(id);
+    if ep.state.load(Ordering::SeqCst) == ST_DEAD {
+        return Some(false);
+    }
+    *ep.grant.lock().unwrap_or_else(|e| e.into_inner()) = Some(grant);
+    ep.thread.unpark();
+    wait_parked_or_dead(&ep, watchdog)
+}
+
+// ------------------------------------------------------------------ wire codec access
+
+/// Public mirror of the crate-private `Message`.
+#[derive(Debug, Clone, PartialEq)]
+pub struct WireMessage {
+    pub transaction_id: u32,
+    pub version: Option<[u8; 4]>,
+    pub requester_ip: Option<SocketAddrV4>,
+    pub message_type: MessageType,
+    pub read_only: bool,
+}
+
+impl WireMessage {
+    fn to_message(&self) -> crate::common::messages::Message {
+        crate::common::messages::Message {
+            transaction_id: self.transaction_id,
+            version: self.version,
+            requester_ip: self.requester_ip,
+            message_type: self.message_type.clone(),
+            read_only: self.read_only,
+        }
+    }
+    pub fn encode(&self) -> Result<Vec<u8>, String> {
+        self.to_message().to_bytes().map_err(|e| e.to_string())
+    }
+    pub fn decode(bytes: &[u8]) -> Result<WireMessage, String> {
+        crate::common::messages::Message::from_bytes(bytes)
+            .map(|m| WireMessage {
+                transaction_id: m.transaction_id,
+                version: m.version,
+                requester_ip: m.requester_ip,
+                message_type: m.message_type,
+                read_only: m.read_only,
+            })
+            .map_err(|e| e.to_string())
+    }
+}
+
+// ------------------------------------------------------------------ table helpers
+
+/// Re-key a routing table (`RoutingTable::reset_id` is crate-private).
+pub fn reset_id(table: &mut RoutingTable, id: Id) {
+    table.reset_id(id)
+}
+/// A node entry carrying a write token (`Node::new_with_token` is crate-private).
+pub fn node_with_token(id: Id, address: SocketAddrV4, token: &[u8]) -> Node {
+    Node::new_with_token(id, address, token.into())
+}
+/// `RoutingTable::closest_secure` (crate-private).
+pub fn closest_secure(table: &RoutingTable, target: Id) -> Vec<Node> {
+    table.closest_secure(target)
+}
+/// Age of a node entry's `last_seen` in virtual nanoseconds.
+pub fn node_age_ns(node: &Node) -> u64 {
+    node.0.last_seen.elapsed().as_nanos() as u64
+}
